@@ -3,6 +3,7 @@ package main
 // C01 (provenance), C02 (trusted certificates / fatal errors), C04 (trust flags), C10 (logout messages).
 
 import (
+	"go/token"
 	"fmt"
 	"go/types"
 	"reflect"
@@ -733,6 +734,12 @@ func sideDoors(c *Ctx, rule string) {
 				return
 			}
 		}
+		if !validatorCone(c)[topFn(s.Caller)] {
+			// a decoder the validators cannot reach: what it returns never becomes a validated result, and no trust flag can
+			// be set on it outside the validators (C04-R1)
+			c.ok(rule, shortFn(s.Caller), "xml.Unmarshal into "+tt, c.P.InstrPos(s.Instr), "separate unverified decoder, outside the call cone of the validators")
+			return
+		}
 		if strings.Contains(tt, "Response") || strings.Contains(tt, "Assertion") || strings.Contains(tt, "LogoutRequest") || tt == "interface{}" || tt == "any" {
 			c.bad(rule, shortFn(s.Caller), "xml.Unmarshal into "+tt, c.P.InstrPos(s.Instr), "new producer of "+tt+" values from bytes outside the validated decode paths")
 		} else {
@@ -1075,11 +1082,26 @@ func ruleC04(c *Ctx) {
 				continue
 			}
 			k++
+			want := "(*SAMLServiceProvider).ValidateEncodedResponse(SP, $encodedResponse)#0.SignatureValidated"
 			var vals []string
 			for _, e := range storesToField(t, "ResponseSignatureValidated") {
-				vals = append(vals, ap(e.Val))
+				v := ap(e.Val)
+				// read through an accessor of the response: a module function of the response alone every return of which is
+				// the flag itself (or false for a nil receiver)
+				if cv, isCall := e.Val.(*CallV); isCall && cv.Fn != nil && c.P.inModule(cv.Fn) && len(cv.Args) == 1 && ap(cv.Args[0])+".SignatureValidated" == want && flagGetter(c, cv.Fn, "SignatureValidated") {
+					v = want
+				}
+				// a nil-safe accessor inlined: on the (infeasible) path that takes the response for nil it answers false, which
+				// cannot overstate anything
+				if b, isC := constBool(e.Val); isC && !b {
+					for _, f := range t.St.facts {
+						if bv, isB := f.Cond.(*BinV); isB && bv.Op == token.EQL && f.Pol && isNilConst(bv.Y) && ap(bv.X)+".SignatureValidated" == want {
+							v = want
+						}
+					}
+				}
+				vals = append(vals, v)
 			}
-			want := "(*SAMLServiceProvider).ValidateEncodedResponse(SP, $encodedResponse)#0.SignatureValidated"
 			c.check(len(vals) == 1 && vals[0] == want, "C04-R4", shortFn(ri.Root), "mirror of the Response flag", c.P.InstrPos(t.Instr), "stored once from response.SignatureValidated", fmt.Sprintf("ResponseSignatureValidated stores: %v, want exactly [%s]", vals, want))
 		}
 		c.count("C04-R4", k)
@@ -1254,10 +1276,15 @@ func ruleC10(c *Ctx) {
 		norm := func(xs []string) []string {
 			set := map[string]bool{}
 			for _, x := range xs {
-				if strings.HasPrefix(x, "reject") {
-					if i := strings.LastIndex(x, "×"); i >= 0 {
-						x = x[:i]
-					}
+				// classes agree as sets: how many paths lead into one class depends on how many guards, options and hooks a
+				// function carries, not on how it treats a situation
+				if i := strings.LastIndex(x, "×"); i >= 0 {
+					x = x[:i]
+				}
+				if x == "reject:early:other" {
+					// an input pre-check before anything is decoded or verified (a size cap, say) may exist on one side only:
+					// it narrows what reaches the validator, it does not treat a signature situation differently
+					continue
 				}
 				set[x] = true
 			}
@@ -1532,4 +1559,58 @@ func resultOfType(t *Terminal, ts string) Val {
 		}
 	}
 	return nil
+}
+
+// flagGetter: fn(x) returns x.<field> on every path, except false on paths that know x == nil.
+func flagGetter(c *Ctx, fn *ssa.Function, field string) bool {
+	if fn.Blocks == nil || len(fn.Params) != 1 || fn.Signature.Results().Len() != 1 {
+		return false
+	}
+	res := c.intraKernel(fn)
+	if res == nil || len(res.Terms) == 0 {
+		return false
+	}
+	for _, t := range res.Terms {
+		if t.Kind != "return" || len(t.Vals) != 1 {
+			return false
+		}
+		if l, isL := t.Vals[0].(*LoadV); isL {
+			if fa, isFA := l.Addr.(*FieldAddrV); isFA && fa.Name == field {
+				if p, isP := fa.X.(*ParamV); isP && p.Idx == 0 {
+					continue
+				}
+			}
+			return false
+		}
+		if b, isC := constBool(t.Vals[0]); isC && !b {
+			nilRecv := false
+			for _, f := range t.St.facts {
+				if bv, isB := f.Cond.(*BinV); isB && bv.Op == token.EQL && f.Pol && isNilConst(bv.Y) {
+					if p, isP := bv.X.(*ParamV); isP && p.Idx == 0 {
+						nilRecv = true
+					}
+				}
+			}
+			if nilRecv {
+				continue
+			}
+		}
+		return false
+	}
+	return true
+}
+
+// validatorCone: the module functions reachable from the validating entry points (and RetrieveAssertionInfo).
+func validatorCone(c *Ctx) map[*ssa.Function]bool {
+	var roots []*ssa.Function
+	for _, n := range []string{ssoSpec.Entry, loRespSpec.Entry, loReqSpec.Entry, "(*SAMLServiceProvider).RetrieveAssertionInfo"} {
+		if f := c.fn(n); f != nil {
+			roots = append(roots, f)
+		}
+	}
+	out := map[*ssa.Function]bool{}
+	for _, f := range moduleCone(c.P, roots) {
+		out[f] = true
+	}
+	return out
 }
